@@ -1,7 +1,8 @@
 (* C02 -- each supported key adds exactly its documented podman option, value intact.
    Proved: the tables (every (key, option) pair found in the source is the documented pair of the documented kind); the frame of the
    table-driven key kinds inside their loop (single string, boolean, one-per-assignment); and, for the container converter, the frame
-   in the WHOLE command (C02_container_string_key_frame): adding a first assignment of any of its single-valued string keys changes
+   in the WHOLE command (C02_container_string_key_frame, _list_key_frame, _bool_key_frame): adding a first assignment of any key of
+   its three option tables (11 single-valued, 8 one-per-assignment, 3 boolean keys) changes
    the generated ExecStart= by exactly the insertion of [option; value] -- every other argument, before and after, is the same.
    (Proofs/C02run.v: no other handler reads the key; every handler only appends, and what it appends does not depend on what is
    already there.)  PARTIAL beyond that: the same whole-command frame for the other key kinds and unit types, the special handlers
@@ -74,6 +75,8 @@ Theorem C02_volume_pinned_refuted :
 Proof. exact volume_pinned_refuted. Qed.
 
 (* ---- the whole container command ---- *)
+(* a first assignment of a key of one of the three option tables of the container converter changes ExecStart= by exactly the
+   insertion of that key's option words; p is everything before them and q everything after, identical in both commands *)
 Theorem C02_container_string_key_frame : forall podman exists_path kill_fixed mount_nl u k0 flag0 raw c v path tbl svc1 sp1 t1 svc2 sp2 t2,
   In (k0, flag0) pt_from_container_unit_string_keys ->
   values_raw u c_CONTAINER_SECTION k0 = [] -> unquote_value raw = Some (c :: v) ->
@@ -83,6 +86,26 @@ Theorem C02_container_string_key_frame : forall podman exists_path kill_fixed mo
     vals svc1 SEC_S (s2l "ExecStart") = before1 ++ [quote_words (p ++ q)] /\
     vals svc2 SEC_S (s2l "ExecStart") = before2 ++ [quote_words (p ++ [flag0; c :: v] ++ q)].
 Proof. exact container_string_key_frame_closed. Qed.
+
+Theorem C02_container_list_key_frame : forall podman exists_path kill_fixed mount_nl u k0 flag0 raw c v path tbl svc1 sp1 t1 svc2 sp2 t2,
+  In (k0, flag0) pt_from_container_unit_all_string_keys ->
+  values_raw u c_CONTAINER_SECTION k0 = [] -> unquote_value raw = Some (c :: v) ->
+  from_container podman exists_path kill_fixed mount_nl u path tbl = COk (svc1, sp1, t1) ->
+  from_container podman exists_path kill_fixed mount_nl (add_entry u c_CONTAINER_SECTION k0 raw) path tbl = COk (svc2, sp2, t2) ->
+  exists before1 before2 p q,
+    vals svc1 SEC_S (s2l "ExecStart") = before1 ++ [quote_words (p ++ q)] /\
+    vals svc2 SEC_S (s2l "ExecStart") = before2 ++ [quote_words (p ++ [flag0; c :: v] ++ q)].
+Proof. exact container_all_key_frame_closed. Qed.
+
+Theorem C02_container_bool_key_frame : forall podman exists_path kill_fixed mount_nl u k0 flag0 raw b path tbl svc1 sp1 t1 svc2 sp2 t2,
+  In (k0, flag0) pt_from_container_unit_bool_keys ->
+  values_raw u c_CONTAINER_SECTION k0 = [] -> raw <> [] -> to_bool raw = Some b ->
+  from_container podman exists_path kill_fixed mount_nl u path tbl = COk (svc1, sp1, t1) ->
+  from_container podman exists_path kill_fixed mount_nl (add_entry u c_CONTAINER_SECTION k0 raw) path tbl = COk (svc2, sp2, t2) ->
+  exists before1 before2 p q,
+    vals svc1 SEC_S (s2l "ExecStart") = before1 ++ [quote_words (p ++ q)] /\
+    vals svc2 SEC_S (s2l "ExecStart") = before2 ++ [quote_words (p ++ (if b then [flag0] else [flag0 ++ s2l "=false"]) ++ q)].
+Proof. exact container_bool_key_frame_closed. Qed.
 
 Theorem C02_frame_example :
   exec_of (convert_one (s2l "/usr/bin/podman") (fun _ => false) true false demo_unit (s2l "/d/a.container") TContainer demo_tbl)
